@@ -178,7 +178,7 @@ CHECKS = {
     "C10": dict(
         engine="E2-handler",
         technique="Coq proof over functions REGENERATED from /repo/src by a fail-closed Python-ast translator (pure.py) and proved equal to the model + Coq proof (gate characterisation, failing condition rejects for every error text, rejected hits keep the budget, three-scope name resolution, per-expression results) + in-Coq correspondence with real evaluate_expression / can_trigger / handler",
-        text="8 Coq theorems over Cond.v + Limiter.v: a hit collects only if limits allow and the condition's value passes "
+        text="9 Coq theorems over Cond.v + Limiter.v: a hit collects only if limits allow and the condition's value passes "
              "str2bool; a condition that fails to evaluate rejects whatever its message; a rejected hit leaves the stats "
              "unchanged, so after any number of rejected hits a permitted true hit collects; names resolve in locals, then "
              "the frame's module globals, then builtins, and nowhere else; each watch has its own result and a failing one "
